@@ -1985,7 +1985,14 @@ class Executor:
 
     def do_call(self, st, fr, t):
         _, dest, callee, argops, target = t
-        callee_s = self.prog.resolve_projection(norm_type(apply_subst(callee, fr.subst))) if "::Output" in callee else apply_subst(callee, fr.subst)
+        if "::Output" in callee and "{" not in callee:
+            callee_s = self.prog.resolve_projection(norm_type(apply_subst(callee, fr.subst)))
+        elif "::Output" in callee:
+            # generic arguments naming a function item (`fn(T) -> <T as Neg>::Output {<T as Neg>::neg}`): norm_type is meant for types
+            # and would mangle the path, so only the projections are resolved
+            callee_s = self.prog.resolve_projection(apply_subst(callee, fr.subst))
+        else:
+            callee_s = apply_subst(callee, fr.subst)
         args = [self.eval_operand(st, fr, o) for o in argops]
         last = Program._last_seg(re.sub(r"::<[^<>]*(?:<[^<>]*(?:<[^<>]*>[^<>]*)*>[^<>]*)*>$", "", callee_s))
         last = re.sub(r"::<.*>$", "", last)
